@@ -1112,6 +1112,8 @@ def flush(ctx):
         elif kind == "decl":
             if m != i:
                 ctx.disagree(line, m, i, "declarable: model and implementation differ")
+        elif kind == "history":
+            compare_history(ctx, line, m, i, meta)
         else:
             compare_graph(ctx, line, m, i, meta)
 
@@ -1166,17 +1168,22 @@ def run_decl_cases(ctx, rng, n):
 # configuration graphs
 
 
-def gen_lib(rng):
-    """a class library: classes[i] only refers to classes[j], j < i (plus `Config` itself)"""
-    n = rng.choice([5, 6, 7, 8])
+def gen_lib(rng, hist=False):
+    """a class library: classes[i] only refers to classes[j], j < i (plus `Config` itself).
+    hist: for histories of submissions — more task classes, and tasks may be parameter values of later classes"""
+    n = rng.choice([6, 7, 8] if hist else [5, 6, 7, 8])
+    ntask = rng.choice([3, 4]) if hist else 2
     classes = []
     for i in range(n):
-        base = "Task" if i >= n - 2 else ("LightweightTask" if i == 1 else "Config")
+        base = "Task" if i >= n - ntask else ("LightweightTask" if i == 1 else "Config")
         parent = None
         same = [j for j, c in enumerate(classes) if c["base"] == base and base == "Config"]
         if same and rng.random() < 0.2:
             parent = rng.choice(same)
         cfgs = [j for j, c in enumerate(classes) if c["base"] == "Config"]
+        if hist:
+            tk = [j for j, c in enumerate(classes) if c["base"] == "Task"]
+            cfgs = cfgs + tk + tk  # tasks as parameter values, favoured
         args = list(classes[parent]["args"]) if parent is not None else []
         used = {a["name"] for a in args}
         for a in range(rng.choice([2, 3, 4] if base == "Task" else [1, 2, 2, 3, 4])):
@@ -1197,6 +1204,8 @@ def gen_lib(rng):
                 ty = T(rng.choice(["list", "dict"]), t=T("cfg", c=rng.choice(cfgs)))
                 if rng.random() < 0.3:
                     ty = T(rng.choice(["list", "dict"]), t=ty)
+            elif hist:
+                ty = T("cfg", c=rng.choice(cfgs))  # no `Config`-typed back references: histories stay acyclic
             else:
                 ty = T("opt", t=T("cfg", c=BASE))
             arg = {"name": name, "ty": ty, "meta": rng.random() < 0.3, "default": None, "generator": False, "constant": False}
@@ -1213,6 +1222,12 @@ def gen_lib(rng):
             elif f < 0.43 and not has_cfg:
                 arg.update(default="conforming", constant=True)
             args.append(arg)
+        if hist and base == "Task" and rng.random() < 0.75:
+            # a required parameter that the identifier ignores (Param[Path], Meta[...]): a missing one is not
+            # caught by an accidental KeyError of the hash computation
+            kind = rng.choice(["path", "meta-int", "meta-str"])
+            args.append({"name": f"a{i}_ign", "ty": T("path") if kind == "path" else T(kind[5:]), "meta": kind != "path",
+                         "default": None, "generator": False, "constant": False})
         mro = [i] + (classes[parent]["mro"] if parent is not None else [BASE])
         classes.append({"name": f"G{i}", "base": base, "parent": parent, "args": args, "mro": mro, "own": [a for a in args if a["name"] not in used]})
     return classes
@@ -1247,8 +1262,13 @@ def arg_required(a):
     return a["ty"]["k"] != "opt" and a["default"] is None
 
 
-def gen_graph(rng, classes, mros, complete=False):
+def ignored_arg(a):
+    return a["meta"] or a["ty"]["k"] == "path"
+
+
+def gen_graph(rng, classes, mros, complete=False, hist=False):
     nodes = []
+    done = set()
     cfg_ok = [i for i, c in enumerate(classes) if c["base"] == "Config"]
     lws = [i for i, c in enumerate(classes) if c["base"] == "LightweightTask"]
 
@@ -1258,7 +1278,7 @@ def gen_graph(rng, classes, mros, complete=False):
                 n = rng.randrange(len(nodes))
                 return {"k": "config", "cls": nodes[n]["cls"], "id": n}
             c = rng.choice(cfg_ok)
-        shared = [n for n, nd in enumerate(nodes) if c in mros[nd["cls"]]]
+        shared = [n for n, nd in enumerate(nodes) if c in mros[nd["cls"]] and (not hist or n in done)]
         if shared and rng.random() < 0.2:
             n = rng.choice(shared)
             return {"k": "config", "cls": nodes[n]["cls"], "id": n}
@@ -1281,10 +1301,11 @@ def gen_graph(rng, classes, mros, complete=False):
                 nd["vals"][k] = None
         if lws and depth < 3 and rng.random() < 0.15:
             nd["pre"] = [mk(rng.choice(lws), depth + 1)["id"]]
+        done.add(nid)  # histories are acyclic: only finished nodes are shared
         return {"k": "config", "cls": cc, "id": nid}
 
     tasks = [i for i, c in enumerate(classes) if c["base"] == "Task"]
-    root = mk(rng.choice(tasks), 0)["id"]
+    root = mk(rng.choice(tasks[-2:] if hist else tasks), 0)["id"]
     if lws and rng.random() < 0.2:
         nodes[root]["init"] = [mk(rng.choice(lws), 1)["id"]]
     g = {"nodes": nodes, "root": root}
@@ -1296,13 +1317,16 @@ def gen_graph(rng, classes, mros, complete=False):
                      if nodes[n]["vals"][k] is not None and arg_required(a) and not a["generator"]]
             if not cands:
                 break
+            if hist and rng.random() < 0.75:
+                ign = [(n, k) for n, k in cands if ignored_arg(classes[nodes[n]["cls"]]["args"][k])]
+                cands = ign or cands
             # removal depth spread: group by distance from the root
             dist = distances(g, classes)
             ds = sorted({dist[n] for n, _ in cands})
             d = rng.choice(ds)
             n, k = rng.choice([c for c in cands if dist[c[0]] == d])
+            removed.append((n, k, d, nodes[n]["vals"][k]) if hist else (n, k, d))
             nodes[n]["vals"][k] = None
-            removed.append((n, k, d))
     g["removed"] = removed
     return g
 
@@ -1609,6 +1633,236 @@ def run_graphs(ctx, rng, nlibs, per_lib, with_model=True):
 
 
 # ---------------------------------------------------------------------------
+# histories: several assignments and submit attempts over the same objects
+
+
+def task_bearing(ty, classes):
+    """the type mentions a Task class: such a slot can only be assigned once the tasks went through submit()"""
+    k = ty["k"]
+    if k == "cfg":
+        return ty["c"] != BASE and classes[ty["c"]]["base"] == "Task"
+    if k in ("opt", "list", "dict"):
+        return task_bearing(ty["t"], classes)
+    return False
+
+
+def gen_history(rng, classes, mros, complete=False):
+    """a configuration graph in which tasks hold tasks, turned into a history: plain values first, then, in
+    post-order, the task-bearing slots of a node and `submit()` of every task node (inner tasks first), then
+    variations: completing the removed value, a new outer task over the same objects, a second submit, an
+    early assignment of a task that has no job yet, an assignment to a sealed object"""
+    g = gen_graph(rng, classes, mros, complete=complete, hist=True)
+    nodes, root = g["nodes"], g["root"]
+    final = [list(nd["vals"]) for nd in nodes]
+    ops = []
+    deferred = {}
+    for n, nd in enumerate(nodes):
+        for k, a in enumerate(classes[nd["cls"]]["args"]):
+            if final[n][k] is None:
+                continue
+            if task_bearing(a["ty"], classes):
+                deferred.setdefault(n, []).append(k)
+            else:
+                ops.append({"o": "assign", "n": n, "k": k, "v": final[n][k]})
+    rng.shuffle(ops)
+    seen, order = set(), []
+
+    def visit(n):
+        if n in seen:
+            return
+        seen.add(n)
+        for m in node_succs(g, n, True):
+            visit(m)
+        order.append(n)
+
+    visit(root)
+    early = rng.random() < 0.25
+    for n in order:
+        for k in deferred.get(n, []):
+            ops.append({"o": "assign", "n": n, "k": k, "v": final[n][k]})
+        if classes[nodes[n]["cls"]]["base"] == "Task":
+            ops.append({"o": "submit", "n": n})
+    if early:
+        # a task-bearing slot assigned before its tasks went through submit(): refused ("must be submitted before giving it")
+        cand = [(n, k) for n in order for k in deferred.get(n, [])]
+        if cand:
+            n, k = rng.choice(cand)
+            first_submit = next(i for i, o in enumerate(ops) if o["o"] == "submit")
+            if val_refs(final[n][k], True):
+                ops.insert(rng.randrange(first_submit + 1), {"o": "assign", "n": n, "k": k, "v": final[n][k]})
+    start = [{"cls": nd["cls"], "vals": [None] * len(nd["vals"]), "pre": nd["pre"], "init": nd["init"]} for nd in nodes]
+    h = {"nodes": start, "ops": ops, "removed": [list(r[:3]) for r in g["removed"]], "root": root}
+    # ---- variations after the first round
+    r = rng.random()
+    removed = g["removed"]
+    if removed and r < 0.6:
+        for (n, k, d, orig) in removed:
+            ops.append({"o": "assign", "n": n, "k": k, "v": orig})  # complete what was missing (refused if the object is sealed)
+        # a new outer task over the same objects (the old one keeps its job: "already submitted")
+        new = len(start)
+        start.append({"cls": nodes[root]["cls"], "vals": [None] * len(nodes[root]["vals"]), "pre": [], "init": []})
+        for k, v in enumerate(final[root]):
+            if v is None and (root, k) in [(a, b) for a, b, _, _ in removed]:
+                v = next(o for a, b, _, o in removed if (a, b) == (root, k))
+            if v is not None:
+                ops.append({"o": "assign", "n": new, "k": k, "v": v})
+        ops.append({"o": "submit", "n": new})
+    elif r < 0.8:
+        tn = [n for n in order if classes[nodes[n]["cls"]]["base"] == "Task"]
+        ops.append({"o": "submit", "n": rng.choice(tn)})  # a second submit of the same task
+    elif r < 0.9 and order:
+        n = rng.choice(order)
+        ks = [k for k, v in enumerate(final[n]) if v is not None]
+        if ks:
+            k = rng.choice(ks)
+            ops.append({"o": "assign", "n": n, "k": k, "v": final[n][k]})  # sealed if an accepted task reaches it
+    return h
+
+
+def hist_line(impl, classes, h, mros):
+    return {"op": "history", "impl": impl,
+            "classes": [[{"ty": a["ty"], "default": a["default"] is not None, "generator": a["generator"], "constant": a["constant"]}
+                         for a in c["args"]] for c in classes],
+            "tasks": [i for i, c in enumerate(classes) if c["base"] == "Task"],
+            "nodes": [{"cls": nd["cls"], "vals": [None] * len(nd["vals"]), "pre": nd["pre"], "init": nd["init"]} for nd in h["nodes"]],
+            "ops": [o if o["o"] == "submit" else {"o": "assign", "n": o["n"], "k": o["k"], "v": with_mro(o["v"], mros)} for o in h["ops"]]}
+
+
+def run_history_case(ctx, classes, defaults, W, mros, h, lines, impls, metas):
+    """the history on the real objects inside one experiment; monitors state the property's second sentence
+    at every submit of the history"""
+    from experimaestro import experiment
+    impl = probe_impl(ctx)
+    case = {"op": "history", "classes": [{k: c[k] for k in ("name", "base", "parent", "args", "mro")} for c in classes], "defaults": defaults,
+            "nodes": h["nodes"], "ops": h["ops"], "removed": h.get("removed", []), "root": h.get("root", 0)}
+    w = W.fresh()
+    nodes = h["nodes"]
+    try:
+        for n, nd in enumerate(nodes):
+            w.obj(nd["cls"], n)
+        for n, nd in enumerate(nodes):
+            if nd["pre"]:
+                w.objs[n].add_pretasks(*[w.objs[m] for m in nd["pre"]])
+    except Exception as e:
+        ctx.disagree(case, "objects of the library", f"building raised {type(e).__name__}: {e}"[:300], "creating the objects of a history")
+        return
+    cur = {"nodes": [{"cls": nd["cls"], "vals": list(nd["vals"]), "pre": nd["pre"], "init": nd["init"]} for nd in nodes], "root": 0}
+    steps = []
+    accepted = []
+    I = instant(ctx)
+    I.n += 1
+    has_flag = hasattr(w.objs[0].__xpm__, "_validated")
+    try:
+        with experiment(I.ws, f"h{I.n}", port=-1, launcher=I.launcher) as xp:
+            for i, op in enumerate(h["ops"]):
+                o = w.objs[op["n"]]
+                before = len(xp.scheduler.jobs)
+                if op["o"] == "assign":
+                    name = classes[nodes[op["n"]]["cls"]]["args"][op["k"]]["name"]
+                    try:
+                        setattr(o, name, build(op["v"], w))
+                        out = "stored"
+                        cur["nodes"][op["n"]]["vals"][op["k"]] = op["v"]
+                    except AttributeError:
+                        out = "readonly"
+                    except (TypeError, ValueError):
+                        out = "invalid"
+                    except Exception as e:
+                        out = "other:" + type(e).__name__
+                else:
+                    cur["root"] = op["n"]
+                    miss = [m for m in reachable(cur, classes, True) if node_missing(cur, classes, m)]
+                    init = [w.objs[m] for m in nodes[op["n"]]["init"]]
+                    had_job = getattr(o.__xpm__, "job", None) is not None
+                    try:
+                        o.submit(init_tasks=init) if init else o.submit()
+                        out = "accepted"
+                        accepted.append(op["n"])
+                    except ValueError:
+                        out = "rejected-missing"
+                    except Exception as e:
+                        out = "already" if type(e) is Exception and had_job else "other:" + type(e).__name__
+                    after = len(xp.scheduler.jobs)
+                    # ---- monitors (implementation only)
+                    prefix = dict(case, ops=h["ops"][: i + 1])
+                    if miss and (out == "accepted" or after != before):
+                        ctx.monitor_fail("history-submit-accepts-missing",
+                                         f"step {i}: submit of node {op['n']} ({classes[nodes[op['n']]['cls']]['name']}) is {out} and the registry goes "
+                                         f"{before} -> {after} although node {miss[0]} ({classes[nodes[miss[0]]['cls']]['name']}), reachable from it, "
+                                         f"misses a required value; history: {describe_ops(h['ops'][: i + 1], classes, nodes)}", prefix)
+                    if not miss and out == "rejected-missing" and not had_job:
+                        ctx.monitor_fail("history-submit-rejects-complete",
+                                         f"step {i}: submit of node {op['n']} raises ValueError although no reachable node misses a required value "
+                                         f"(a value completed between two attempts must be seen); history: {describe_ops(h['ops'][: i + 1], classes, nodes)}", prefix)
+                    if out != "accepted" and after != before:
+                        ctx.monitor_fail("history-registry-changed-by-rejected-submit",
+                                         f"step {i}: submit of node {op['n']} is {out} but the registry goes {before} -> {after}", prefix)
+                    ctx.count("history_submit", out.split(":")[0] + ("/missing" if miss else "/complete"))
+                ids = set()
+                for n in accepted:
+                    j = getattr(w.objs[n].__xpm__, "job", None)
+                    ids.add(getattr(j, "identifier", n))
+                steps.append({"out": out, "accepted": len(accepted), "distinct": len(ids), "registry": len(xp.scheduler.jobs),
+                              "flags": sorted(n for n, x in w.objs.items() if getattr(x.__xpm__, "_validated", None) is True) if has_flag else None,
+                              "job": sorted(n for n, x in w.objs.items() if getattr(x.__xpm__, "job", None) is not None)})
+    except BaseException as e:  # what happens to registered jobs afterwards is not this property's business
+        I.after = type(e).__name__
+    if len(steps) != len(h["ops"]):
+        ctx.count("history_cut_short", len(steps))
+        return
+    lines.append(hist_line(impl, classes, h, mros))
+    impls.append(steps)
+    metas.append({"case": case})
+    nsub = sum(1 for o in h["ops"] if o["o"] == "submit")
+    ctx.case(case, nsub >= 2)
+    ctx.count("history_ops", min(len(h["ops"]), 40) // 5 * 5)
+    ctx.count("history_submits", nsub)
+    for st, op in zip(steps, h["ops"]):
+        if op["o"] == "assign":
+            ctx.count("history_assign", st["out"].split(":")[0])
+
+
+def describe_ops(ops, classes, nodes):
+    out = []
+    for o in ops[-12:]:
+        nm = classes[nodes[o["n"]]["cls"]]["name"]
+        if o["o"] == "submit":
+            out.append(f"n{o['n']}:{nm}.submit()")
+        else:
+            a = classes[nodes[o["n"]]["cls"]]["args"][o["k"]]["name"]
+            refs = val_refs(o["v"], True)
+            out.append(f"n{o['n']}:{nm}.{a}=" + (("<" + ",".join(f"n{r}" for r in refs) + ">") if refs else o["v"]["k"]))
+    return "; ".join(out)
+
+
+def compare_history(ctx, line, m, steps, meta):
+    ms = m.get("steps", [])
+    if len(ms) != len(steps):
+        ctx.disagree(meta["case"], len(ms), len(steps), "history: number of steps")
+        return
+    for i, (a, b) in enumerate(zip(ms, steps)):
+        mm = {"out": a["out"], "registry": a["registry"], "job": a["job"], "flags": a["flags"] if b["flags"] is not None else None}
+        ii = {"out": b["out"], "registry": b["accepted"], "job": b["job"], "flags": b["flags"]}
+        if mm != ii:
+            ctx.disagree(dict(meta["case"], failing_step=i), mm, ii, f"history step {i}: model and implementation differ")
+            return
+        if b["registry"] != b["distinct"]:
+            ctx.disagree(dict(meta["case"], failing_step=i), b["distinct"], b["registry"], f"history step {i}: scheduler registry size vs accepted tasks (distinct identifiers)")
+            return
+
+
+def run_histories(ctx, rng, nlibs, per_lib, with_model=True):
+    for _ in range(nlibs):
+        classes, defaults, W, mros = make_lib(ctx, rng, gen_lib(rng, hist=True))
+        lines, impls, metas = [], [], []
+        for _ in range(per_lib):
+            h = gen_history(rng, classes, mros, complete=rng.random() < 0.25)
+            run_history_case(ctx, classes, defaults, W, mros, h, lines, impls, metas)
+        if with_model:
+            _QUEUE.extend(("history", l, i, m) for l, i, m in zip(lines, impls, metas))
+
+
+# ---------------------------------------------------------------------------
 # corpus: the witnesses of the findings and a few past disagreements, run first
 
 F10_CASE = {"kind": "set", "arg": {"ty": T("union", ts=[T("int"), T("str")]), "default": None, "generator": False, "constant": False},
@@ -1644,7 +1898,28 @@ def n3_case():
     return c
 
 
-CORPUS = [F10_CASE, N1_CASE, N2_CASE, f11_case(True, "list"), f11_case(False, "list"), f11_case(True, "dict"), n3_case()]
+def skipjob_case(kind="path", position="direct"):
+    """seeded/C15-skipjob: a task P with an unset required parameter that the identifier ignores is submitted and rejected
+    (its `job` stays set); the same P is then given to another task T (directly / in a list / in a dict) and T is submitted"""
+    ign = {"name": "corpus", "ty": T("path") if kind == "path" else T("int"), "meta": kind != "path", "default": None,
+           "generator": False, "constant": False}
+    size = {"name": "size", "ty": T("int"), "meta": False, "default": "conforming", "generator": False, "constant": False}
+    pty = T("cfg", c=0)
+    dty = pty if position == "direct" else T(position, t=pty)
+    data = {"name": "data", "ty": dty, "meta": False, "default": None, "generator": False, "constant": False}
+    classes = [{"name": "G0", "base": "Task", "parent": None, "mro": [0, BASE], "args": [ign, size]},
+               {"name": "G1", "base": "Task", "parent": None, "mro": [1, BASE], "args": [data]}]
+    pv = {"k": "config", "cls": 0, "id": 1}
+    val = pv if position == "direct" else (D_list([pv]) if position == "list" else D_dict([(K_str("a"), pv)]))
+    return {"kind": "history", "classes": classes, "defaults": {"size": D_int(10)},
+            "nodes": [{"cls": 1, "vals": [None], "pre": [], "init": []}, {"cls": 0, "vals": [None, None], "pre": [], "init": []}],
+            "ops": [{"o": "assign", "n": 1, "k": 1, "v": D_int(20)}, {"o": "submit", "n": 1},
+                    {"o": "assign", "n": 0, "k": 0, "v": val}, {"o": "submit", "n": 0}],
+            "removed": [[1, 0, 1]], "root": 0}
+
+
+CORPUS = [F10_CASE, N1_CASE, N2_CASE, f11_case(True, "list"), f11_case(False, "list"), f11_case(True, "dict"), n3_case()] + \
+    [skipjob_case(k, pos) for k in ("path", "meta") for pos in ("direct", "list", "dict")]
 
 
 def run_case_list(ctx, cases, with_model=True):
@@ -1653,6 +1928,17 @@ def run_case_list(ctx, cases, with_model=True):
         c["arg"]["ty"] = norm_unions(c["arg"]["ty"])
     if sets:
         run_set_cases(ctx, [(c["arg"], [("corpus", c["v"], 0)]) for c in sets], with_model, source="corpus")
+    for c in cases:
+        if c["kind"] == "history":
+            classes = c["classes"]
+            for cl in classes:
+                cl.setdefault("own", cl["args"] if cl["parent"] is None else
+                              [a for a in cl["args"] if a["name"] not in {x["name"] for x in classes[cl["parent"]]["args"]}])
+            classes, defaults, W, mros = make_lib(ctx, None, classes, c.get("defaults", {}))
+            lines, impls, metas = [], [], []
+            run_history_case(ctx, classes, defaults, W, mros, c, lines, impls, metas)
+            if with_model:
+                _QUEUE.extend(("history", l, i, m) for l, i, m in zip(lines, impls, metas))
     for c in cases:
         if c["kind"] != "graph":
             continue
@@ -1677,14 +1963,18 @@ def correspond(ctx):
                 "graph cases: random class library (5-8 classes, inheritance, Param/Meta, Optional, defaults, generators, constants, List/Dict/nested "
                 "containers of configurations, Optional[Config] back references), random graph with sharing, pre-tasks and init tasks, one (10%: two, "
                 "20%: no) required value removed at a reachable node chosen by distance from the root; non-trivial = at least 3 reachable nodes and the "
-                "removal below the root; distinct = distinct case hash")
+                "removal below the root. history cases: class library in which tasks are parameter values of later tasks (direct, list, dict, nested), "
+                "many with a required parameter the identifier ignores (Param[Path], Meta); the graph is turned into a history of assignments and submit "
+                "attempts in one experiment (inner tasks first: a rejected inner task keeps its job and is then held by the outer one), followed by a "
+                "variation: complete the removed value and submit a new outer task over the same objects / submit a task twice / assign a task without "
+                "job / assign to a sealed object; non-trivial = at least two submit attempts; distinct = distinct case hash")
     ctx.assumptions += [
         "parameter values are not task instances, not subclasses of str/int/float, and are not mutated after assignment",
         "no Argument.checker and no user __validate__ hook",
         "Union alternatives are pairwise different annotations and never directly another Union (typing flattens these)",
         "dict keys of declared types are str (Dict[str, T])",
-        "one validation/submit per freshly built configuration graph (the _validated flag of earlier runs is modelled and compared, but the "
-        "property theorem is about fresh objects)",
+        "histories: assignments go to objects that no accepted submit reaches (those are sealed; a few sealed ones are assigned on purpose), "
+        "graphs of histories are acyclic, a completed value is never changed again",
     ]
     rng = ctx.rng
     probe_impl(ctx)
@@ -1702,8 +1992,11 @@ def correspond(ctx):
     nlibs, per = ctx.scale((14, 18), (110, 22))
     run_graphs(ctx, rng, nlibs, per)
     t2 = time.time()
+    nlibs, per = ctx.scale((8, 12), (60, 15))
+    run_histories(ctx, rng, nlibs, per)
+    t3 = time.time()
     flush(ctx)
-    ctx.notes.append(f"phases: set+decl {t1 - t0:.0f}s, graphs {t2 - t1:.0f}s, model driver {time.time() - t2:.0f}s")
+    ctx.notes.append(f"phases: set+decl {t1 - t0:.0f}s, graphs {t2 - t1:.0f}s, histories {t3 - t2:.0f}s, model driver {time.time() - t3:.0f}s")
 
 
 def search(ctx):
@@ -1716,6 +2009,7 @@ def search(ctx):
     while time.time() - t0 < budget and not [m for m in ctx.monitor_failures if m["key"] not in known]:
         run_set_cases(ctx, gen_set_cases(ctx, rng, 150), with_model=False)
         run_graphs(ctx, rng, 3, 15, with_model=False)
+        run_histories(ctx, rng, 3, 10, with_model=False)
 
 
 def run_witness(ctx, finding):
@@ -1731,6 +2025,9 @@ def replay(ctx, obj):
         print("replaying", json.dumps(c)[:300])
         if c.get("op") == "set":
             cases.append({"kind": "set", "arg": c["argd"], "v": c["v"]})
+        elif c.get("op") == "history":
+            cases.append({"kind": "history", "classes": c["classes"], "defaults": c.get("defaults", {}), "nodes": c["nodes"], "ops": c["ops"],
+                          "removed": c.get("removed", []), "root": c.get("root", 0)})
         elif c.get("op") == "graph":
             cases.append({"kind": "graph", "classes": c["classes"], "defaults": c.get("defaults", {}), "nodes": c["nodes"], "root": c["root"],
                           "removed": c.get("removed", []), "resubmit": c.get("resubmit", False)})
